@@ -20,7 +20,7 @@ NAMES = ['T0', 'T1', 'T2', 'T3', 'T4']
 # programs
 # ---------------------------------------------------------------------------------------------
 
-def make_world(kind, initial):
+def make_world(kind, initial, shape=0):
     """Build the port(s) of a program; returns (port used by the threads, context dict)."""
     import mido.ports as P
     ctx = {'wire': []}
@@ -58,7 +58,9 @@ def make_world(kind, initial):
         collections.deque.extend(other._messages, [portsim.msg_of(k + 5000) for k in initial])
     elif kind == 'multi':
         kids = [sched.instrument(P.EchoPort()), sched.instrument(P.EchoPort())]
-        p = sched.instrument(P.MultiPort(kids))
+        # the member ports as a list, or as any other iterable a caller has them in (a generator, a map, a dict view)
+        p = sched.instrument(P.MultiPort(kids if shape % 3 == 0 else (k for k in kids) if shape % 3 == 2 else
+                                         {id(k): k for k in kids}.values()))
         ctx['kids'] = kids
     elif kind == 'pqueue':
         import queue as _q
@@ -164,6 +166,19 @@ def thread_fn(port, calls, record, ctx=None):
     return f
 
 
+class NonTerminating(Exception):
+    """A schedule of a program whose every call terminates under the property (each receive has its message sent by another
+    thread, polls are single calls) went on for more than 3000 scheduling decisions: a thread waits for a message that is
+    never delivered."""
+    def __init__(self, decisions):
+        Exception.__init__(self, 'schedule does not terminate')
+        self.decisions = decisions
+
+
+NONTERM = ('this schedule does not end (more than 3000 scheduling decisions): a thread keeps waiting for a message that was sent '
+           'through the port and is never delivered')
+
+
 def execute(prog, prefix, default='same', rng=None):
     """Run one schedule.  prog = (kind, initial, [calls per thread]).  The schedule follows `prefix`
     (thread indices) and then the default policy.  Returns the observation dict."""
@@ -173,7 +188,7 @@ def execute(prog, prefix, default='same', rng=None):
     P.random.shuffle = lambda l: None
     P.sleep = lambda: sched.yp('sleep')
     try:
-        port, ctx = make_world(kind, initial)
+        port, ctx = make_world(kind, initial, shape=sum(len(t) for t in threads) + len(threads))
         s = sched.Sched(watchdog=5.0)
         known = set()
         for q_, l_ in ctx.get('guards', []):
@@ -203,7 +218,7 @@ def execute(prog, prefix, default='same', rng=None):
             info['alts'].append((list(en), last, pick))
             info['last'] = pick
             if info['n'] > 3000:
-                raise HarnessTimeout('schedule does not terminate (more than 3000 decisions)')
+                raise NonTerminating([NAMES.index(p_) for (_e, _l, p_) in info['alts']])
             return pick
         res = s.run(progs, choose)
         if s.stuck and '__deadlock__' not in res:
@@ -529,13 +544,17 @@ def run_program(args):
     prog, bound, limit, nrandom, seed = args
     import random
     outs = []
-    for dec, ob in explore(prog, bound, limit):
-        outs.append(_summarise(prog, ob, 'dfs'))
-    rng = random.Random(seed)
-    # blocking receive only under random (fair) schedules
-    for _ in range(nrandom):
-        ob = execute(prog, [], rng=rng)
-        outs.append(_summarise(prog, ob, 'random'))
+    try:
+        for dec, ob in explore(prog, bound, limit):
+            outs.append(_summarise(prog, ob, 'dfs'))
+        rng = random.Random(seed)
+        # blocking receive only under random (fair) schedules
+        for _ in range(nrandom):
+            ob = execute(prog, [], rng=rng)
+            outs.append(_summarise(prog, ob, 'random'))
+    except NonTerminating as e:
+        outs.append({'fail': NONTERM, 'decisions': e.decisions, 'mode': 'dfs', 'preemptions': 0, 'req': None, 'line': None,
+                     'dreq': None, 'dline': None})
     return outs
 
 
@@ -612,7 +631,10 @@ def oracle(case):
     if 'pqueue_many' in case:
         return pqueue_many(case['pqueue_many'])
     prog = eval(case['prog'])
-    ob = execute(prog, list(case['schedule']))
+    try:
+        ob = execute(prog, list(case['schedule']))
+    except NonTerminating:
+        return NONTERM
     return judge(prog, ob)
 
 
